@@ -450,9 +450,18 @@ static void run_case(int k, const Case& cs)
                 multi->set_competency_table(*comp);
             }
             treatments.reset(new Treatments<TModel::StandardSingleHostPool, DR>(config.scheduler()));
-            for (auto& tr : treats)
-                treatments->add_treatment(
-                    tr.map, Date(tr.y, tr.m, tr.d), tr.days, treatment_app_enum_from_string(tr.app));
+            {
+                // the caller loads every coefficient raster into ONE buffer and reuses it: a
+                // registered treatment keeps the coefficients it was given, whatever happens
+                // to the caller's raster afterwards
+                DR buffer(rows, cols, 0.0);
+                for (auto& tr : treats) {
+                    buffer = tr.map;
+                    treatments->add_treatment(
+                        buffer, Date(tr.y, tr.m, tr.d), tr.days, treatment_app_enum_from_string(tr.app));
+                }
+                buffer.fill(0.0);
+            }
             spread_rate.reset(new SpreadRateAction<TModel::StandardMultiHostPool, int>(
                 *multi,
                 config.rows,
